@@ -7,6 +7,7 @@ VIOLATION / KNOWN-FINDING lines.  See DESIGN.md §2.3/§2.4.
 """
 from __future__ import annotations
 
+import copy
 import fcntl
 import hashlib
 import json
@@ -593,6 +594,7 @@ class PropBase:
         stats = Counter()
         hashes = []
         mism = []
+        firsts = []
         for c, (st, n) in zip(chunk, spans):
             io = self.impl(c)
             mo = self.model_obs(c, replies[st:st + n])
@@ -602,6 +604,24 @@ class PropBase:
                 hashes.append(case_hash(c))
             if io != mo:
                 mism.append({"case": c, "impl": io, "model": mo})
+            firsts.append(io)
+        # the implementation's observable is a function of the case alone: a sample of the chunk is run again, in
+        # reverse order, in this same process, after everything else the chunk did (whatever a call leaves behind —
+        # a cache, a narrowed list, a half-filled memo — shows up as a different answer to the same question)
+        if getattr(self, "rerun_check", True) and len(chunk) > 1:
+            step = max(1, len(chunk) // 6)
+            for k in range(len(chunk) - 1, -1, -step):
+                c = chunk[k]
+                try:
+                    fresh = {kk: vv for kk, vv in c.items() if not str(kk).startswith("_")}
+                    again = self.impl(copy.deepcopy(fresh))
+                except Exception:  # noqa: BLE001
+                    continue
+                if again != firsts[k]:
+                    mism.append({"case": fresh, "impl": again, "model": ["the same call earlier in this process answered", firsts[k]]})
+                    stats["rerun:differs"] += 1
+                else:
+                    stats["rerun:same"] += 1
         return {"n": len(chunk), "mismatches": mism, "stats": dict(stats), "hashes": hashes}
 
     # shrinking: property modules may override
